@@ -86,9 +86,15 @@ Definition plain_entry (b : binding) (ln : nat) : entry :=
 
 Definition names_of (es : list entry) : list name := map e_name es.
 
-(* scope.py:303-305: one ImportedName(name, loc, declared_at, mname, name, is_star) per exported name *)
+(* names that start with an underscore (the harness renders the codes from 100 on as `_n<k>`, also as
+   components of module names: `pkg/_n105.py`) *)
+Definition is_private (x : name) : bool := N.leb 100 x.
+
+(* scope.py:303-305: one ImportedName(name, loc, declared_at, mname, name, is_star) per exported name
+   that does not start with an underscore *)
 Definition star_entries (m : modname) (ln : nat) (es' : list entry) : list entry :=
-  map (fun x => mkE x ln (KImp m (Some x))) (dedupN (names_of es')).
+  map (fun x => mkE x ln (KImp m (Some x)))
+      (filter (fun x => negb (is_private x)) (dedupN (names_of es'))).
 
 (* Flow.names: {n.name: n for n in _names} - the last binding of a name wins *)
 Fixpoint find_last_from (x : name) (es : list entry) (i : nat) (acc : option nat) : option nat :=
